@@ -3,6 +3,8 @@ package props
 import (
 	"fmt"
 	"math/rand"
+	"os"
+	"path/filepath"
 	"sort"
 	"strings"
 
@@ -11,16 +13,18 @@ import (
 
 // GenOpts steer the random DAG generator.
 type GenOpts struct {
-	MaxN        int
-	Retries     bool
-	Preconds    bool
-	ContinueOn  bool
-	Failures    bool
-	MaxActive   bool
-	Delay       bool
-	Handlers    bool
-	Outputs     bool // some steps capture their stdout with output:
-	RetryMsProb int // % of retrying steps that get a 5..30 ms interval
+	MaxN         int
+	Retries      bool
+	Preconds     bool
+	ContinueOn   bool
+	Failures     bool
+	MaxActive    bool
+	Delay        bool
+	Handlers     bool
+	Outputs      bool // some steps capture their stdout with output:
+	TeardownFail bool // some steps' output cannot be flushed at teardown (stdout: /dev/full); the done receiver is slow in some cases
+	SharedPrec   bool // some DAGs carry the shared-precondition gadget (same condition text, value changed by the run)
+	RetryMsProb  int  // % of retrying steps that get a 5..30 ms interval
 }
 
 func stepName(i int) string { return fmt.Sprintf("s%d", i) }
@@ -91,6 +95,52 @@ func GenDAG(r *rand.Rand, id string, o GenOpts) *vexec.CaseSpec {
 			if r2.Intn(100) < 18 {
 				s.OutputVar = "VERIF_OUT_" + strings.ToUpper(strings.ReplaceAll(id, "-", "_")) + "_" + strings.ToUpper(s.Name)
 				s.OutBytes = 1 + r2.Intn(40)
+			}
+		}
+	}
+	if o.TeardownFail {
+		r4 := rand.New(rand.NewSource(spec.DecSeed ^ 0x7e47))
+		for _, s := range spec.Steps {
+			if r4.Intn(100) < 5 && s.FailFirst == 0 && s.RetryLimit == 0 && !s.Repeat && !s.SetupFail && s.OutputVar == "" && !s.StdoutFile && !s.Never {
+				s.TeardownFail = true
+				if s.OutBytes == 0 {
+					s.OutBytes = 1 + r4.Intn(200)
+				}
+			}
+		}
+		if r4.Intn(100) < 35 {
+			spec.SlowDoneUs = []int{500, 3000, 20000}[r4.Intn(3)]
+		}
+	}
+	if o.SharedPrec {
+		r3 := rand.New(rand.NewSource(spec.DecSeed ^ 0x5a5a))
+		if r3.Intn(100) < 12 {
+			// gx [$S == 1, S is 0: skipped, continueOn.skipped] -> ga [sets S=1 when it ends] ->
+			// gc [$S == 1: met, must run]  and  gd [$S == 0: unmet, must be skipped]:
+			// one condition text, evaluated before and after the run itself changed what it reads
+			// two flavours: an environment variable, and a command substitution reading a file
+			// (the text of the latter is the same before and after the change)
+			base := os.Getenv("VERIF_SCRATCH")
+			if base == "" {
+				base = os.TempDir()
+			}
+			if r3.Intn(2) == 0 {
+				v := "VERIF_SHARED_" + strings.ToUpper(strings.ReplaceAll(id, "-", "_"))
+				spec.InitEnv = map[string]string{v: "0"}
+				spec.Steps = append(spec.Steps,
+					&vexec.StepSpec{Name: "gx", HasPrecond: true, PrecondUnmet: true, PrecondVar: v, PrecondExpect: "1", ContSkip: true},
+					&vexec.StepSpec{Name: "ga", Depends: []string{"gx"}, SetEnv: map[string]string{v: "1"}},
+					&vexec.StepSpec{Name: "gc", Depends: []string{"ga"}, HasPrecond: true, PrecondVar: v, PrecondExpect: "1"},
+					&vexec.StepSpec{Name: "gd", Depends: []string{"ga"}, HasPrecond: true, PrecondUnmet: true, PrecondVar: v, PrecondExpect: "0"})
+			} else {
+				f := filepath.Join(base, fmt.Sprintf("shared-flag-%s-%d", id, os.Getpid()))
+				txt := "`cat " + f + "`"
+				spec.InitFiles = map[string]string{f: "0"}
+				spec.Steps = append(spec.Steps,
+					&vexec.StepSpec{Name: "gx", HasPrecond: true, PrecondUnmet: true, PrecondText: txt, PrecondExpect: "1", ContSkip: true},
+					&vexec.StepSpec{Name: "ga", Depends: []string{"gx"}, SetFile: map[string]string{f: "1"}},
+					&vexec.StepSpec{Name: "gc", Depends: []string{"ga"}, HasPrecond: true, PrecondText: txt, PrecondExpect: "1"},
+					&vexec.StepSpec{Name: "gd", Depends: []string{"ga"}, HasPrecond: true, PrecondUnmet: true, PrecondText: txt, PrecondExpect: "0"})
 			}
 		}
 	}
